@@ -43,7 +43,7 @@ def caught : List (String × List String) := [
   ("html", ["xml.etree.ElementTree.ParseError", "builtins.LookupError", "builtins.ValueError"]),
   ("json", ["json.decoder.JSONDecodeError", "builtins.UnicodeDecodeError", "builtins.ValueError", "builtins.RecursionError"]),
   ("json5", ["builtins.ValueError", "builtins.RecursionError"]),
-  ("pickle", ["fickling.fickle.PickleDecodeError"]),
+  ("pickle", ["fickling.fickle.PickleDecodeError", "builtins.NotImplementedError", "builtins.ValueError"]),
   ("plist", ["xml.parsers.expat.ExpatError", "builtins.ValueError", "builtins.IndexError", "builtins.AttributeError", "builtins.LookupError", "builtins.MemoryError", "builtins.OverflowError", "builtins.RecursionError"]),
   ("xml", ["xml.etree.ElementTree.ParseError", "builtins.LookupError", "builtins.ValueError"]),
   ("yaml", ["yaml.error.YAMLError", "builtins.ValueError", "builtins.AttributeError", "builtins.LookupError"])
